@@ -31,6 +31,13 @@ ID_LINE = re.compile(rb"^  (-?\d+),  /\* file_identifier \*/$", re.M)
 
 def job_from_spec(spec):
     """Returns a list of steps [(stepname, job)] for the spec."""
+    steps = _job_from_spec(spec)
+    if spec.get("files_first"):
+        steps = [(n, common.files_first(j)) for n, j in steps]
+    return steps
+
+
+def _job_from_spec(spec):
     be = spec["backend"]
     opts = list(spec.get("opts", []))
     if spec["kind"] == "fixture-rich":
@@ -73,7 +80,7 @@ def job_from_spec(spec):
         mod = {"name": "mod", "tool": "interrogate_module", "files": {},
                "argv": ["-oc", "out-oc/mod_module.cxx", "-module", "m", "-library", "m", be if be in ("-python", "-python-native") else "-python",
                         "out-od/libc.in", "out-od/liba.in", "out-od/libb.in"],
-               "outputs": {"oc": "out-oc/mod_module.cxx"}}
+               "outputs": {"oc": "out-oc/mod_module.cxx"}, "nfiles": 3}
         steps.append(("mod", mod))
         return steps
     raise ValueError(spec)
@@ -133,6 +140,8 @@ def generate(ctx):
             spec = {"kind": "pipeline", "backend": be, "opts": [o for o in opts if o != "-do-module"]}
         else:
             spec = {"kind": "gen", "backend": be, "opts": opts, "hseed": rng.next(), "n_classes": rng.range(1, 10), "n_macros": rng.range(0, 12)}
+        if i % 3 == 1:
+            spec["files_first"] = True      # the file arguments ahead of the options: what POSIXLY_CORRECT changes the meaning of
         sde = rng.choice(SDE_CHOICES)
         envs = [gen_env(rng, first=True, sde=sde)] + [gen_env(rng, sde=sde) for _ in range(nexec - 1)]
         plans.append({"id": i, "spec": spec, "envs": envs})
